@@ -223,6 +223,35 @@ fn apply(g: &mut Gen, mut t: Term, kind: &str) -> Term {
             let new_names: Vec<String> = (0..d).map(|i| pool[i].to_string()).collect();
             t.shape = (0..d).map(|i| (new_names[i].clone(), shape[i].1)).collect();
             t.lines.push((format!("rename {}", join(&new_names)), Some(lens(&t.shape))));
+            // the setter of the adaptor just built: refused (a repeated name), then accepted
+            if g.rng.chance(1, 2) {
+                g.count("mutator.set_names");
+                if d >= 2 {
+                    let mut bad = new_names.clone();
+                    let i = g.rng.below(d);
+                    let mut j = g.rng.below(d);
+                    if j == i {
+                        j = (i + 1) % d;
+                    }
+                    bad[j] = bad[i].clone();
+                    if g.rng.chance(1, 2) {
+                        // every name fresh except the repeated pair
+                        for k in 0..d {
+                            if k != i && k != j {
+                                bad[k] = pool[d + k].to_string();
+                            }
+                        }
+                    }
+                    t.lines.push(("get_names".into(), None));
+                    t.lines.push((format!("set_names {}", join(&bad)), Some(lens(&t.shape))));
+                    g.count("mutator.set_names.refused");
+                }
+                g.rng.shuffle(&mut pool);
+                let newer: Vec<String> = (0..d).map(|i| pool[i].to_string()).collect();
+                t.shape = (0..d).map(|i| (newer[i].clone(), shape[i].1)).collect();
+                t.lines.push(("get_names".into(), None));
+                t.lines.push((format!("set_names {}", join(&newer)), Some(lens(&t.shape))));
+            }
         }
         "reverse" => {
             let subset: Vec<String> = shape.iter().filter(|_| g.rng.chance(1, 2)).map(|x| x.0.clone()).collect();
@@ -249,6 +278,37 @@ fn apply(g: &mut Gen, mut t: Term, kind: &str) -> Term {
         _ => unreachable!(),
     }
     t
+}
+
+/// A TensorRename / TensorReverse over the term whose source is then swapped (through
+/// `source_ref_mut`) with a leaf of another shape of the same dimensionality.
+fn swap_source(g: &mut Gen, t: Term) -> Term {
+    let d = t.shape.len();
+    g.count("mutator.swap_source");
+    let other_shape = random_leaf_shape(g, d, 96);
+    let other = leaf_term(g, other_shape.clone());
+    let mut lines = other.lines.clone();
+    lines.extend(t.lines.iter().cloned());
+    if g.rng.chance(1, 2) {
+        let mut pool: Vec<&str> = NAMES.to_vec();
+        g.rng.shuffle(&mut pool);
+        let new_names: Vec<String> = (0..d).map(|i| pool[i].to_string()).collect();
+        let before: Vec<usize> = lens(&t.shape);
+        lines.push((format!("rename {}", join(&new_names)), Some(before)));
+        let shape: Shape = (0..d).map(|i| (new_names[i].clone(), other_shape[i].1)).collect();
+        lines.push(("swap_source".into(), Some(lens(&shape))));
+        if d >= 2 && g.rng.chance(1, 2) {
+            let mut bad = new_names.clone();
+            bad[0] = bad[d - 1].clone();
+            lines.push((format!("set_names {}", join(&bad)), Some(lens(&shape))));
+        }
+        Term { lines, shape }
+    } else {
+        let subset: Vec<String> = t.shape.iter().filter(|_| g.rng.chance(1, 2)).map(|x| x.0.clone()).collect();
+        lines.push((format!("reverse {}", join(&subset)), Some(lens(&t.shape))));
+        lines.push(("swap_source".into(), Some(lens(&other_shape))));
+        Term { lines, shape: other_shape }
+    }
 }
 
 /// `n` copies of the term's program combined with stack / chain.
@@ -308,7 +368,7 @@ fn gen_term(g: &mut Gen, depth: usize) -> Term {
     let t = gen_term(g, depth - 1);
     let d = t.shape.len();
     loop {
-        let kind = *g.rng.pick(&["range", "mask", "index", "expand", "rename", "reverse", "access", "transpose", "stack", "chain", "matrixof"]);
+        let kind = *g.rng.pick(&["range", "mask", "index", "expand", "rename", "reverse", "access", "transpose", "stack", "chain", "matrixof", "swap_source"]);
         let ok = match kind {
             "matrixof" => d == 2,
             "index" | "chain" => d >= 1,
@@ -325,6 +385,10 @@ fn gen_term(g: &mut Gen, depth: usize) -> Term {
                 // keep the programs small: at most ~40 lines per case
                 if t.lines.len() > 12 { continue; }
                 combine(g, t, kind)
+            }
+            "swap_source" => {
+                if t.lines.len() > 20 { continue; }
+                swap_source(g, t)
             }
             _ => apply(g, t, kind),
         };
@@ -355,6 +419,7 @@ fn show_idx(idx: &[usize]) -> String {
 fn probes(g: &mut Gen, ls: &[usize], full: bool) {
     let d = ls.len();
     g.op("shape".into());
+    g.op("get_names".into());
     g.op("layout".into());
     g.op("memorder".into());
     let product: usize = ls.iter().product();
@@ -550,6 +615,56 @@ fn exhaustive(g: &mut Gen) {
                 emit(g, &t, true, false);
             }
         }
+        // the setter of TensorRename: every pair of positions made equal (refused), every rotation
+        // of fresh names (accepted); and the source swapped for each of the other small leaves
+        if d >= 1 {
+            let fresh: Vec<String> = (0..d).map(|i| NAMES[8 + i % 6].to_string()).collect();
+            let renamed: Shape = (0..d).map(|i| (fresh[i].clone(), leaf[i].1)).collect();
+            let r = with_line(&base, format!("rename {}", join(&fresh)), Some(renamed.clone()));
+            for i in 0..d {
+                for j in 0..d {
+                    if i == j {
+                        continue;
+                    }
+                    let mut bad = fresh.clone();
+                    bad[j] = bad[i].clone();
+                    let mut t = r.clone();
+                    t.lines.push((format!("set_names {}", join(&bad)), Some(lens(&renamed))));
+                    // an existing source name repeated is just as bad
+                    let mut bad2: Vec<String> = leaf.iter().map(|x| x.0.to_string()).collect();
+                    bad2[j] = bad2[i].clone();
+                    t.lines.push((format!("set_names {}", join(&bad2)), Some(lens(&renamed))));
+                    g.count("exhaustive.set_names_refused");
+                    emit(g, &t, true, false);
+                }
+            }
+            for rot in 0..d {
+                let names2: Vec<String> = (0..d).map(|i| fresh[(i + rot) % d].clone()).collect();
+                let sh: Shape = (0..d).map(|i| (names2[i].clone(), leaf[i].1)).collect();
+                let mut t = r.clone();
+                t.lines.push((format!("set_names {}", join(&names2)), Some(lens(&sh))));
+                // and back to the source's own names
+                let own: Vec<String> = leaf.iter().map(|x| x.0.to_string()).collect();
+                t.lines.push((format!("set_names {}", join(&own)), Some(lens(&base.shape))));
+                g.count("exhaustive.set_names_accepted");
+                emit(g, &t, true, false);
+            }
+            for kind in ["rename", "reverse"] {
+                let other: Shape = (0..d).map(|i| (NAMES[2 + i].to_string(), 1 + (leaf[i].1 + i) % 3)).collect();
+                let mut t = Term { lines: vec![(format!("leaf ? {}", show(&other)), Some(lens(&other)))], shape: other.clone() };
+                t.lines.extend(base.lines.iter().cloned());
+                if kind == "rename" {
+                    t.lines.push((format!("rename {}", join(&fresh)), Some(lens(&base.shape))));
+                    let sh: Shape = (0..d).map(|i| (fresh[i].clone(), other[i].1)).collect();
+                    t.lines.push(("swap_source".into(), Some(lens(&sh))));
+                } else {
+                    t.lines.push((format!("reverse {}", leaf[d - 1].0), Some(lens(&base.shape))));
+                    t.lines.push(("swap_source".into(), Some(lens(&other))));
+                }
+                g.count("exhaustive.swap_source");
+                emit(g, &t, true, false);
+            }
+        }
         // every subset of reversed dimensions
         for bits in 0..(1usize << d) {
             let subset: Vec<String> = (0..d).filter(|k| bits >> k & 1 == 1).map(|k| leaf[k].0.to_string()).collect();
@@ -681,7 +796,7 @@ fn malformed(g: &mut Gen) {
         "reverse a,a", "reverse zz", "reverse a,zz", "reverse a,b,c,a",
         "access a,b,b", "access a,b,zz", "access zz,a,b", "access c,c,c", "access a,b", "access b,a,a",
         "transpose a,b,b", "transpose a,zz,c", "transpose a,a,a", "transpose c,a,c",
-        "matrixof x,y", "stack 1 4:s", "stack 1 0:a", "stack 1 3:c", "stack 0 0:s", "stack 2 0:s", "stack 5 0:s",
+        "matrixof x,y", "set_names a,b,c", "swap_source", "get_names", "stack 1 4:s", "stack 1 0:a", "stack 1 3:c", "stack 0 0:s", "stack 2 0:s", "stack 5 0:s",
         "chain 1 zz", "chain 0 a", "chain 2 a",
     ];
     for b in bad {
